@@ -144,8 +144,11 @@ class RepoModel:
         self.functions: dict[str, FunctionInfo] = {}
         self.classes: dict[str, ClassInfo] = {}
         self.stats = {}
+        self.renamed: dict[str, dict] = {}  # qualname -> {current local name: reference name} applied by engine/alpha.py
         self._load()
         self._index()
+        if not os.environ.get("VERIF_NO_ALPHA"):
+            self._canon_calls()
 
     # -- loading ------------------------------------------------------------------------------
     def _load(self):
@@ -182,6 +185,57 @@ class RepoModel:
                 if pk not in self.modules:
                     self.modules[pk] = ModuleInfo(pk, "", "", "", ast.Module(body=[], type_ignores=[]), True)
 
+    def _canon_calls(self):
+        """One spelling for calls of repository functions: every argument that can be written positionally (a contiguous
+        prefix of the callee's declared parameters) is, the rest are keywords in declaration order.  `f(a, dim=d)` and
+        `f(rho=a, dim=d)` and `f(a, d)` become the same AST, so no verdict depends on how a call spells its arguments."""
+        n = 0
+        for f in list(self.functions.values()):
+            for c in list(walk_no_nested(f.node)):
+                if not isinstance(c, ast.Call) or any(isinstance(a, ast.Starred) for a in c.args) or any(kw.arg is None for kw in c.keywords):
+                    continue
+                try:
+                    cal = self.resolve_call(f, c)
+                except Exception:  # noqa: BLE001
+                    continue
+                if cal.kind != "repo" or cal.func is None:
+                    continue
+                a = cal.func.node.args
+                if a.vararg is not None or a.posonlyargs:
+                    continue
+                names = [x.arg for x in a.args]
+                if names and names[0] in ("self", "cls") and cal.func.cls is not None:
+                    names = names[1:]
+                if len(c.args) > len(names):
+                    continue
+                supplied = {names[i]: v for i, v in enumerate(c.args)}
+                extra = []
+                dup = False
+                for kw in c.keywords:
+                    if kw.arg in supplied:
+                        dup = True
+                    elif kw.arg in names:
+                        supplied[kw.arg] = kw.value
+                    else:
+                        extra.append(kw)
+                if dup:
+                    continue
+                new_args, rest = [], []
+                prefix = True
+                for nm in names:
+                    if nm in supplied and prefix:
+                        new_args.append(supplied[nm])
+                    else:
+                        prefix = False
+                        if nm in supplied:
+                            rest.append(ast.keyword(arg=nm, value=supplied[nm]))
+                if [id(x) for x in new_args] != [id(x) for x in c.args] or len(rest) + len(extra) != len(c.keywords) or \
+                        [k.arg for k in rest + extra] != [k.arg for k in c.keywords]:
+                    c.args = new_args
+                    c.keywords = rest + extra
+                    n += 1
+        self.canon_calls = n
+
     def _index(self):
         for m in self.modules.values():
             self._index_scope(m, m.tree.body, None, None, m.name)
@@ -204,6 +258,12 @@ class RepoModel:
         for st in body:
             if isinstance(st, (ast.FunctionDef, ast.AsyncFunctionDef)):
                 qn = f"{prefix}.{st.name}"
+                if parent is None and not os.environ.get("VERIF_NO_ALPHA"):
+                    from . import alpha
+
+                    mp = alpha.canonicalise(st, qn)
+                    if mp:
+                        self.renamed[qn] = mp
                 fi = FunctionInfo(qn, st.name, m, st, cls, parent, _params_of(st))
                 self.functions[qn] = fi
                 if cls is not None:
